@@ -181,6 +181,18 @@ class Ctx:
             raise ToolTrouble("TLC reports a problem in the specification itself (%s): exit %d\n%s" % (what, run.code, run.tail(30)))
 
     # ---------------------------------------------------------------- Go
+    def harness_dir(self):
+        """The harness module builds against /repo (go.mod replace). For trials against another tree
+        (VERIF_REPO=<dir>, used only by tools/ when testing seeded changes) a scratch copy is re-pointed."""
+        if REPO == "/repo":
+            return os.path.join(VERIF, "harness")
+        d = os.path.join(self.scratch, "harness-copy")
+        if not os.path.exists(d):
+            shutil.copytree(os.path.join(VERIF, "harness"), d)
+            gm = open(os.path.join(d, "go.mod")).read().replace("=> /repo", "=> " + REPO)
+            open(os.path.join(d, "go.mod"), "w").write(gm)
+        return d
+
     def gobuild(self, pkg, race=False):
         key = (pkg, race)
         if key in self.bins:
@@ -192,7 +204,7 @@ class Ctx:
             cmd.append("-race")
         cmd.append("./" + pkg)
         t0 = time.time()
-        p = subprocess.run(cmd, cwd=os.path.join(VERIF, "harness"), env=go_env(), capture_output=True, text=True)
+        p = subprocess.run(cmd, cwd=self.harness_dir(), env=go_env(), capture_output=True, text=True)
         if p.returncode != 0:
             raise ToolTrouble("build of driver %s against %s failed:\n%s" % (pkg, REPO, (p.stdout + p.stderr)[-4000:]))
         log("built %s%s in %.1fs" % (pkg, " (race)" if race else "", time.time() - t0))
@@ -213,7 +225,7 @@ class Ctx:
         t0 = time.time()
         with open(out, "w") as fo:
             try:
-                p = subprocess.run(cmd, cwd=os.path.join(VERIF, "harness", pkg), env=e, stdout=fo, stderr=subprocess.STDOUT,
+                p = subprocess.run(cmd, cwd=os.path.join(self.harness_dir(), pkg), env=e, stdout=fo, stderr=subprocess.STDOUT,
                                    timeout=timeout + 30)
                 code = p.returncode
             except subprocess.TimeoutExpired:
@@ -259,7 +271,8 @@ class Ctx:
                 new.append(v)
         for k, vs in hit.values():
             print("KNOWN-FINDING: property=%s %s (%d occurrence(s), e.g. %s)" % (self.id, k["what"], len(vs), vs[0]["key"]))
-        rdir = os.path.join(VERIF, "evidence", "replay")
+        evroot = os.environ.get("VERIF_EVIDENCE") or os.path.join(VERIF, "evidence")
+        rdir = os.path.join(evroot, "replay")
         paths = []
         if new:
             os.makedirs(rdir, exist_ok=True)
@@ -284,10 +297,10 @@ class Ctx:
         ev = {"property_id": self.id, "tier": self.tier, "seed": self.seed, "level": level, "coverage": coverage,
               "assumptions": assumptions, "wall_s": round(time.time() - self.t0, 2), "violations": len(new),
               "known_findings_hit": [k["what"] for k, _ in hit.values()]}
-        os.makedirs(os.path.join(VERIF, "evidence"), exist_ok=True)
-        tmp = os.path.join(VERIF, "evidence", ".%s.json.tmp" % self.id)
+        os.makedirs(evroot, exist_ok=True)
+        tmp = os.path.join(evroot, ".%s.json.tmp" % self.id)
         json.dump(ev, open(tmp, "w"), indent=1)
-        os.replace(tmp, os.path.join(VERIF, "evidence", "%s.json" % self.id))
+        os.replace(tmp, os.path.join(evroot, "%s.json" % self.id))
         return 1 if new else 0
 
     def cleanup(self):
